@@ -28,6 +28,10 @@ HASH_ITER_TABLE = {
     "Arena::allocated_summary": "heap summary: per-type counters are merged into a map (order-insensitive)",
     "CodeMaps::add_all": "adds every code map of another collection (insertion, order-insensitive)",
     "LintSuppressionsBuilder::update_lint_suppressions": "inserts suppression names into a set (order-insensitive)",
+    "Context::check": "starlark_bin: copies the builtin symbol names into the lint globals set (insertion into a set)",
+    "BazelContext::check": "starlark_bin: copies the builtin symbol names into the lint globals set (insertion into a set)",
+    "VTABLE_REGISTRY::{closure#0}": "pagable vtable registry: the keys are collected and sorted by type name before indices "
+                                    "are assigned",
 }
 
 ORDER_TRAITS = re.compile(r"std::cmp::(Ord|PartialOrd)$|std::fmt::Display$")
